@@ -282,6 +282,10 @@ def _neg_monitor(op, im):
     if "settings" in r:
         if (r["settings"] == "1") != both:
             return "settings-frame-sent-to-legacy-peer" if not both else "settings-frame-missing"
+        if "revs" in r and r["settings"] == "1":
+            want = "0" if k["lib"] == "disabled" else "0,1"
+            if r["revs"] != want:
+                return "flow-control-offered-although-disabled" if k["lib"] == "disabled" else "wrong-revisions-in-settings"
         if r.get("close") != "0":
             return "rpc-fails-after-negotiation"
     if "rev" in r:
